@@ -6,6 +6,8 @@ from checks import pycommon
 from checks.c03 import cut_textfn
 
 LAYOUT_ERR_SEEDS = [
+    'x = f"""a\n{b} c\nd""" +\n', 'msg = f"""head\n  {name} tail\n  more {value!}\n"""\n', 'f"""a\n{b} c\nd\ne""" $\n', "x = f\'\'\'a\n{b}\nc\'\'\' 1\n",
+    "d = {a: 1, (b\n        + cccccccccccc)}\n", "cfg = {\n    'name': 1,\n    f(x,\n      some_long_argument_name),\n}\n", "f(a,\n  b\n  c)\n", "x = [1,\n     2\n     3]\n",
     'for x in """a\nb"""', 'y = 1\nwhile """first\nsecond\nthird"""', 'if cond:\n    pass\nelif """p\nq"""', "if x:\n\t\ty = 1\n\tz = 2\n",
     "def f():\n\tif a:\n\t\t\treturn 1\n\t\treturn 2\n", "if x:\n \ty = 1\n  z\n", "x = [1,\n\'\'\'a\nb\'\'\' 2]", "(a,\n # c\n b) += 1\n", "(a,\n\n b) += 1\n", 'x = (b"a"\n     # note\n     "b")\n',
     "x = (1,\n\n  2 3)\n", "if a:\n    pass\n\n  b\n", "def f(:\n  pass\n", "x = [\n  # c\n  1 2\n]\n", "'''a\nb''' = 1\n", "x = 1 +\n", "f(a for a in b, c)\n",
@@ -51,6 +53,13 @@ def main():
     pycommon.indent_skeleton(chk, o, 4 if chk.quick else 5, pycommon.CORE_OPTS, wall=120 if chk.quick else 1200)
     pycommon.indent_skeleton(chk, o, 2 if chk.quick else 3, pycommon.RICH_OPTS, wall=120 if chk.quick else 1500, label="rich")
     cut_src = [s for s in LAYOUT_ERR_SEEDS if len(s) < 120] + cut_src
+    ml = pycommon.relayout_multiline([s for s in py if len(s) < 120] + seeds.sample(chk.rng, seeds.expr_product(), 150 if chk.quick else 1500))
+    chk.extra["multiline_relayouts"] = len(ml)
+    pycommon.b_holes(chk, o, [], 0) if False else None
+    pycommon.a_holes(chk, o, ml if not chk.quick else seeds.sample(chk.rng, ml, 80), 4 if chk.quick else 0, wall=150 if chk.quick else 2400, maxlen=240,
+                     name="A-holes k=1 on multi-line relayouts", vac=("SyntaxError",))
+    dels = pycommon.token_deletions(ml if not chk.quick else seeds.sample(chk.rng, ml, 150))
+    pycommon.k0_texts(chk, o, dels, "single-token deletions of multi-line relayouts k=0", wall=150 if chk.quick else 1200, vac=("SyntaxError",))
     tf, ncuts = cut_textfn(cut_src)
     chk.run("A-prefixes", harness.A_harness(tf, path_oracles=o), f"every proper prefix of {len(cut_src)} seeds ({ncuts} cuts)",
             wall=100 if chk.quick else 900, vacuity=("SyntaxError",))
